@@ -182,11 +182,12 @@ def _mk(p):
 # ------------------------------------------------------------------ generators
 @st.composite
 def pyfunc_family(draw):
-    tpl = draw(st.sampled_from(["closure", "const", "global"]))
+    tpl = draw(st.sampled_from(["closure", "const", "global", "stmt", "stmt1", "mls"]))
     base = dict(template=tpl, params=dict(k=draw(st.integers(0, 3)), d=draw(st.integers(0, 2)),
                                           g=draw(st.integers(0, 3))), x=draw(st.integers(0, 5)))
-    rel = {"closure": "k", "const": "k", "global": "g"}[tpl]
-    lab = {"closure": "func-closure", "const": "func-body", "global": "func-global"}[tpl]
+    rel = {"closure": "k", "const": "k", "global": "g", "stmt": "k", "stmt1": "k", "mls": "k"}[tpl]
+    lab = {"closure": "func-closure", "const": "func-body", "global": "func-global", "stmt": "func-body-stmt",
+           "stmt1": "func-body-first-stmt", "mls": "func-body"}[tpl]
     variants, labels = [base], []
     n = draw(st.integers(1, 2))
     for j in range(n):
